@@ -1625,7 +1625,7 @@ def run(ctx):
                     if jtext(S.serialize_extraction(null_binary(o), include_binary=True)) != jtext(jf):
                         ctx.finding(f"no-binary-differs:{label}", "include_binary=False changed more than the binary fields",
                                     doc_replay(label, p))
-                    if len(text) < 40_000 and len(results_small) < ctx.n(12, 40):
+                    if len(text) < 40_000 and len(results_small) < ctx.n(8, 40):
                         results_small.append((key, o))
               except Exception as e:  # noqa  — never let an implementation exception stop the harness
                 ctx.finding(f"implementation-raises:{label}", f"an accessor/serialiser call raises {e!r} on the result of {label}",
@@ -1833,7 +1833,7 @@ def run(ctx):
 
     # ---- the environment must not matter: DEBUG logging, worker thread, time zones, cwd — for the round trip of generated
     # instances and for extraction -> to_json of small fixtures
-    sample = list(range(0, len(insts), max(1, len(insts) // ctx.n(150, 400))))
+    sample = list(range(0, len(insts), max(1, len(insts) // ctx.n(100, 400))))
 
     def rt_view(i):
         x_ = copy.deepcopy(insts[i])
@@ -1847,7 +1847,7 @@ def run(ctx):
         return hashlib.sha1(repr((jtext(tj_), jtext(tn_), back)).encode("utf-8", "surrogatepass")).hexdigest()[:16]
 
     common.env_sweep(ctx, "instance-roundtrip", rt_view, sample, describe=lambda i: f"instance #{i} ({type(insts[i]).__name__})")
-    small_fx = [str(p) for p in fixture_files() if p.stat().st_size < 60_000 and "password" not in str(p)][:ctx.n(24, 60)]
+    small_fx = [str(p) for p in fixture_files() if p.stat().st_size < 60_000 and "password" not in str(p)][:ctx.n(12, 60)]
 
     def fx_view(path):
         rs_ = list(sharepoint2text.read_file(path))
